@@ -588,7 +588,9 @@ func c15RunCase(t *testing.T, ops []string, o *Out, settle func()) {
 				switch {
 				case !ok:
 				case pos == "outer":
-					_, _ = writers[sx].Write(k.h, k.pl, interceptor.Attributes{})
+					// a fresh copy of the kept header per retransmission, as the responder makes one (F-41)
+					hc := k.h.Clone()
+					_, _ = writers[sx].Write(&hc, k.pl, interceptor.Attributes{})
 				case k.wire:
 					o.P("%s", k.line)
 				}
